@@ -136,6 +136,11 @@ class StmtMixin:
             v = VRef(v.term, hint, v.st)       # sidecar local type: the opaque value is an instance of that class
         for tgt in st.targets:
             self.assign(tgt, v)
+        # `x = []`: remember the fresh, empty, unaliased accumulator (until the name is read): an accumulation loop over
+        # it is then the comprehension it spells out (same law, element type from the appended value)
+        if len(st.targets) == 1 and isinstance(st.targets[0], ast.Name) and isinstance(st.value, ast.List) \
+                and not st.value.elts and isinstance(v, VRef) and not self.spec_mode and self.frame is not None:
+            self.fresh_acc[(id(self.frame), st.targets[0].id)] = (v.term.get_id(), hint)
 
     def s_AnnAssign(self, st):
         if st.value is not None:
@@ -467,6 +472,9 @@ class StmtMixin:
                 return False
         gens = [(n.target, n.iter) for n in nest]
         appended = []
+        fresh = self.fresh_acc.pop((id(self.frame), acc), None)
+        as_comprehension = fresh is not None and fresh[0] == accv.term.get_id() \
+            and z3.is_int_value(z3.simplify(self.llen(accv))) and z3.simplify(self.llen(accv)).as_long() == 0
 
         def body_fn():
             appended.clear()
@@ -480,6 +488,11 @@ class StmtMixin:
             if appended:
                 return VTuple([VBool(True), appended[0]])
             return VTuple([VBool(False), None])
+        if as_comprehension:
+            hint = fresh[1] if isinstance(fresh[1], ty.TList) else None
+            R = self.enumeration_law(gens, body_fn, None, first_iter=im, extend=False, result_type=hint)
+            self.frame.locals[acc] = R
+            return True
         self.enumeration_law(gens, body_fn, accv, first_iter=im, extend=True)
         return True
 
